@@ -12,9 +12,14 @@
    root's size), WinExposeProofs.v ([pre b r]: the buffer's masks are at most at its depth,
    its clip lies inside the buffer and inside the handed rectangle r). *)
 From Coq Require Import ZArith List Bool.
+(* (the xterm driver's files first: where a name exists on both sides -- rect, term, t_lines ... --
+   the unqualified one is the window layer's) *)
+From Tickit Require Import Csi VT XtermDefs XtermSpec XtermProofs.
 From Tickit Require Import RectDefs WinRectSet WinDefs WinSpec WinHist
   WinExposeProofs WinLogDisjoint WinFlushProofs WinScreenInv WinPreserve WinTermResize WinHistory WinC01Extra
-  WinRectSetProofs WinScrollDesc WinScrollRegion WinScrollFold WinScrollSpec WinScrollOps WinScrollInv WinHistoryFull WinReDefs WinReProofs WinReFlags WinReEstablish WinReExample WinReForest.
+  WinRectSetProofs WinScrollDesc WinScrollRegion WinScrollFold WinScrollSpec WinScrollOps WinScrollInv WinHistoryFull WinReDefs WinReProofs WinReFlags WinReEstablish WinReExample WinReForest WinScrollXterm WinScrollXtermHist.
+From Tickit Require RBDefs RBSpec RBFlushDefs RBTermSim.
+From Tickit Require Import WinRBView WinEndToEnd WinEndToEndFinal.
 From Tickit Require WinInput WinInputProofs.
 Import ListNotations.
 Local Open Scope Z_scope.
@@ -151,6 +156,90 @@ Theorem C01_scroll_with_children : forall progs m id d r,
   MInv3 (step no_defects progs (OScrollKids id d r) m).
 Proof. exact (@WinScrollInv.scrollkids_preserves). Qed.
 Print Assumptions C01_scroll_with_children.
+
+(* ---- scrolls on the REAL terminal driver (property C09) ----
+   The scroll theorems above hold for every terminal oracle.  Here the oracle is the xterm
+   driver itself ([xterm_oracle slrm] = the return value of xt_scrollrect, XtermDefs.v, with or
+   without the DECSLRM capability), and the abstract terminal's grid is tied to the glyphs of a
+   VT-conformant screen: [VR tm v] = same size, and every cell of tm is the glyph of v's cell.
+   [vt_ok], [in_range], [RScroll], [vt_run]: as in Properties_C09.v; [xr] converts a rectangle. *)
+
+(* one request: what the window layer's terminal does on an accepted / refused request is what
+   the driver's tokens do on the VT screen (C09_scroll) -- the accepting behaviour the C01
+   theorems assume of the terminal is the proved behaviour of the driver; iterable *)
+Theorem C01_scroll_request_xterm : forall slrm tm v r d rt,
+  VR tm v -> vt_ok v -> in_range (RScroll (xr r) d rt) v ->
+  (slrm = true -> md_lrmm (v_md v) = true) ->
+  t_oracle tm = xterm_oracle slrm ->
+  let ts := snd (xt_scrollrect slrm (v_cols v) (xr r) d rt) in
+  let v' := vt_run ts v in
+  snd (term_scroll tm r d rt) = fst (xt_scrollrect slrm (v_cols v) (xr r) d rt) /\
+  VR (fst (term_scroll tm r d rt)) v' /\ vt_ok v' /\
+  t_oracle (fst (term_scroll tm r d rt)) = xterm_oracle slrm /\
+  v_md v' = v_md v /\ (slrm = true -> md_lrmm (v_md v') = true).
+Proof. exact term_scroll_xterm. Qed.
+Print Assumptions C01_scroll_request_xterm.
+
+(* the whole of _scroll: EVERY request it makes is in the driver's range (on the screen, of
+   positive size, offsets smaller than the rectangle), and after the driver's tokens
+   ([win_scroll_tokens]) the VT screen still shows the window layer's terminal *)
+Theorem C01_scroll_xterm : forall slrm app st tm v id orig d r mask st' tm' ret,
+  ScreenInv app st tm -> NoDup (t_ids (r_tree st)) -> vis_nonempty (r_tree st) ->
+  VR tm v -> vt_ok v -> (slrm = true -> md_lrmm (v_md v) = true) -> t_oracle tm = xterm_oracle slrm ->
+  win_scroll no_defects st tm id orig d r mask = (st', tm', ret) ->
+  let v' := vt_run (win_scroll_tokens slrm no_defects st tm id orig d r mask) v in
+  VR tm' v' /\ vt_ok v' /\ t_oracle tm' = xterm_oracle slrm /\
+  v_md v' = v_md v /\ (slrm = true -> md_lrmm (v_md v') = true).
+Proof. exact win_scroll_xterm. Qed.
+Print Assumptions C01_scroll_xterm.
+
+(* C01_scroll_spec, about the glyphs of the VT screen behind the real driver *)
+Theorem C01_scroll_spec_xterm : forall slrm app st tm v id orig d r mask st' tm' ret,
+  ScreenInv app st tm -> NoDup (t_ids (r_tree st)) -> vis_nonempty (r_tree st) ->
+  VR tm v -> vt_ok v -> (slrm = true -> md_lrmm (v_md v) = true) -> t_oracle tm = xterm_oracle slrm ->
+  win_scroll no_defects st tm id orig d r mask = (st', tm', ret) -> r_fault st' = false ->
+  let v' := vt_run (win_scroll_tokens slrm no_defects st tm id orig d r mask) v in
+  forall q, cell_inb (root_selfrect st) q = true ->
+    covered (r_damage st') q \/
+    (~ scrollV (r_tree st) id orig mask q /\
+     c_glyph (v_grid v' (fst q) (snd q)) = shows app (r_tree st) q) \/
+    (scrollV (r_tree st) id orig mask q /\
+     scrollV (r_tree st) id orig mask (fst q + d, snd q + r) /\
+     c_glyph (v_grid v' (fst q) (snd q)) = shows app (r_tree st) (fst q + d, snd q + r)).
+Proof. exact win_scroll_spec_xterm. Qed.
+Print Assumptions C01_scroll_spec_xterm.
+
+(* histories of any length of non-drawing operations (everything but flush and terminal
+   resize, which go through the render buffer: see C01_end_to_end), the three scroll
+   operations included: the C01 invariant AND the tie to the VT screen are kept.
+   [XT slrm tm v] = VR tm v, vt_ok v, the oracle is the driver, the DECSLRM capability is there
+   if the driver uses it; [run_tokens] = the driver's tokens of the history *)
+Theorem C01_history_xterm : forall slrm progs ops m v,
+  forallb (fun o => negb (draws o)) ops = true ->
+  MInv3 m -> run_ok3 progs ops m -> XT slrm (m_term m) v ->
+  MInv3 (run no_defects progs ops m) /\
+  XT slrm (m_term (run no_defects progs ops m)) (vt_run (run_tokens slrm progs ops m) v).
+Proof. exact history_xterm. Qed.
+Print Assumptions C01_history_xterm.
+
+Example C01_scroll_xterm_nonvacuous :
+  (* the hypotheses of C01_scroll_spec_xterm, for a 4x6 root with a 2x3 child at (1,1), on a
+     started xterm with DECSLRM, scrolling the child by one line *)
+  ScreenInv ex_app ex_st ex_tm /\ NoDup (t_ids (r_tree ex_st)) /\ vis_nonempty (r_tree ex_st) /\
+  VR ex_tm ex_v /\ vt_ok ex_v /\ md_lrmm (v_md ex_v) = true /\ t_oracle ex_tm = xterm_oracle true /\
+  r_fault (fst (fst (win_scroll no_defects ex_st ex_tm 1 None 1 0 true))) = false /\
+  (* the driver accepted, and wrote something *)
+  snd (win_scroll no_defects ex_st ex_tm 1 None 1 0 true) = true /\
+  length ex_tokens = 6%nat /\
+  (* the moved cell *)
+  c_glyph (v_grid ex_v' 1 1) = c_glyph (v_grid ex_v 2 1) /\
+  c_glyph (v_grid ex_v' 1 1) = ex_app 1 1 0 /\
+  c_glyph (v_grid ex_v 1 1) = ex_app 1 0 0 /\
+  (* outside the child nothing moved; the vacated line is blank and pending damage *)
+  c_glyph (v_grid ex_v' 1 0) = ex_app 0 1 0 /\
+  c_glyph (v_grid ex_v' 2 1) = 32 /\
+  r_damage (fst (fst (win_scroll no_defects ex_st ex_tm 1 None 1 0 true))) = [mkRect 2 1 1 3].
+Proof. exact win_scroll_xterm_nonvacuous. Qed.
 
 (* every operation keeps the damage set a rectangle set in the sense of property C05 *)
 Theorem C01_damage_inv : forall progs o m,
@@ -301,6 +390,82 @@ Example C01_reentrant_nonvacuous :
   t_grid (m_term nv_m2) (2, 3) <> t_grid (m_term nv_m1) (2, 3) /\
   map fst (m_xlog nv_m2) = [2; 0].
 Proof. exact (@WinReExample.re_nonvacuous). Qed.
+
+(* ---- END TO END: window layer + concrete render buffer + its flush + terminal ----
+   Everything above is about the window layer drawing on an abstract per-cell buffer that an
+   abstract terminal copies.  Here the drawing is done CONCRETELY:
+     [flush_ops hp tree rects] (WinRBView.v) is the sequence of render-buffer API calls the
+       render loop of tickit_window_flush and _do_expose make -- save, clip, per visible child
+       save / clip / translate / the child / restore / mask, then the window's handler; the
+       handler of a drawing program makes the calls [c_prog] (as harness/win_harness.h does:
+       odd lines character by character, even lines as one text; text_at, erase_at, char_at,
+       hline_at / vline_at (single, no caps), eraserect, skip_at, clear);
+     [cscreen] runs that program on the span grid of RBDefs.v (the model of renderbuffer.c,
+       property C03), flushes the buffer with RBFlushDefs.flush (tickit_renderbuffer_flush_to_term,
+       property C04) and lets C04's terminal execute the emitted goto / setpen / print / erasech;
+     [cwin_flush] is win_flush with [cscreen] in place of the abstract buffer and terminal.
+   [TR tm t]: terminal t (RBFlushDefs.term: a grid of cells with text and pen) is well formed,
+   has tm's size and every cell's text is [enc] of tm's content (the character itself; the
+   table's box-drawing glyph for a line cell).  [CScreenInv app st t] := exists tm, ScreenInv
+   app st tm /\ TR tm t.  The proof composes the window-layer theorems with C03_program and
+   C04_flush_grid_all_reachable through a simulation relation between the abstract buffer and
+   the cell-wise specification RBSpec.v ([Rrb], WinRBSim.v: every operation the window layer
+   performs -- save, clip, translate, mask, restore, every drawing call -- is the astep of the
+   specification).
+
+   REMAINING HYPOTHESES: [app_ok app]: what the application paints are characters of ONE column
+   (cpw = 1 in the render-buffer group's width function) outside the codes 201..215 the window
+   model reserves for line cells -- the window model is per cell, a double-width character
+   straddling a window edge is not expressible in it; windows have no pen of their own (the
+   model has one pen; [TR] compares texts, not pens); the terminal has the root's size
+   (ScreenInv); the cursor calls around the drawing are not part of the grid (C15). *)
+
+(* the flush, concretely, never faults, and afterwards EVERY cell of the terminal shows the
+   character the painter's-model composition puts there; the invariant is re-established *)
+Theorem C01_end_to_end : forall app progs st (t0 : RBFlushDefs.term) st' t1 lg,
+  app_ok app -> CScreenInv app st t0 -> ids_unique (r_tree st) -> (forall id, progs id = [DPaint]) ->
+  cwin_flush no_defects (c_hp app progs) st t0 = RBDefs.Ok (st', t1, lg) -> r_fault st' = false ->
+  r_damage st' = [] /\
+  (forall y x, 0 <= y < RBFlushDefs.t_lines t1 -> 0 <= x < RBFlushDefs.t_cols t1 ->
+     RBFlushDefs.t_text (RBTermSim.tcellat t1 y x) = [shows app (r_tree st') (y, x)]) /\
+  CScreenInv app st' t1 /\ ids_unique (r_tree st').
+Proof. exact end_to_end_c01_f. Qed.
+Print Assumptions C01_end_to_end.
+
+Theorem C01_end_to_end_total : forall app progs st (t0 : RBFlushDefs.term),
+  app_ok app -> CScreenInv app st t0 -> ids_unique (r_tree st) -> (forall id, progs id = [DPaint]) ->
+  exists st' t1 lg, cwin_flush no_defects (c_hp app progs) st t0 = RBDefs.Ok (st', t1, lg).
+Proof. exact end_to_end_c01_total_f. Qed.
+Print Assumptions C01_end_to_end_total.
+
+(* the simulation itself, for ARBITRARY drawing programs and every defect configuration: the
+   concrete flush computes the same window state and log as the model's, and a terminal in
+   relation with the model's *)
+Theorem C01_end_to_end_sim : forall app progs cfg st tm (t0 : RBFlushDefs.term) st' tm' lg,
+  app_ok app -> TR tm t0 ->
+  0 <= lines (root_selfrect (after_queue st)) <= t_lines tm ->
+  0 <= cols (root_selfrect (after_queue st)) <= t_cols tm ->
+  win_flush cfg (prog_handler app progs) st tm = (st', tm', lg) ->
+  exists t1, cwin_flush cfg (c_hp app progs) st t0 = RBDefs.Ok (st', t1, lg) /\ TR tm' t1.
+Proof. exact cwin_flush_sim_f. Qed.
+Print Assumptions C01_end_to_end_sim.
+
+(* the harness's application content meets the content hypothesis *)
+Theorem C01_end_to_end_app_base : app_ok app_base.
+Proof. exact app_base_ok. Qed.
+Print Assumptions C01_end_to_end_app_base.
+
+(* computed: a 4x6 root with a 2x3 child at (1,1) on a blank terminal *)
+Example C01_end_to_end_nonvacuous :
+  match cwin_flush no_defects (c_hp app_base (fun _ => [DPaint])) e2e_st (blank_term 4 6) with
+  | RBDefs.Ok (st', t1, lg) =>
+    e2e_cells_ok st' t1 = true /\ r_damage st' = [] /\ map fst lg = [1; 0] /\
+    RBFlushDefs.t_text (RBTermSim.tcellat t1 1 1) = [app_base 1 0 0] /\
+    RBFlushDefs.t_text (RBTermSim.tcellat t1 0 0) = [app_base 0 0 0] /\
+    app_base 1 0 0 <> app_base 0 1 1
+  | _ => False
+  end.
+Proof. exact e2e_nonvacuous. Qed.
 
 (* [shows] is [compose] on the screen of a visible root *)
 Theorem C01_shows_is_compose : forall app tree q,
